@@ -20,7 +20,11 @@
    c08PinnedWitnesses) and evaluated below on the current model.
 
    Named gap: the Go allocator / GC and the CTE front end (ANTLR) are not
-   modelled; CTE cost is measured only. *)
+   modelled.  Of the CTE decoder only the listener's accumulation of a
+   string-like value is (C08_cte_accumulation_linear below); the CTE decoder as
+   a whole is held to a measured bound by the harness (c08.go, stage (f):
+   2048*len + 2*MaxArraySizeBytes + 4 MiB, and no growth of the allocation per
+   document byte within a family). *)
 From Coq Require Import List NArith.
 From CE Require Import Model.Cost Proofs.CostProofs.
 Import ListNotations.
@@ -98,6 +102,26 @@ Proof. exact time_linear. Qed.
 Print Assumptions C08_time_linear.
 
 (* ------------------------------------------------------------------ *)
+(* CTE: accumulation of a string-like value                             *)
+(* ------------------------------------------------------------------ *)
+
+(* Whatever the mix of plain characters, escape characters, code point escapes and
+   continuations in the body of a string-like value (string, resource ID, remote
+   reference, custom text, media text), the buffers the CTE listener allocates while
+   accumulating the value are at most 10 bytes per byte of the value (+ 320), the
+   value is at most 4 bytes per code point of its spelling, and the bytes it copies
+   are paid for by the bytes it allocated: linear in the document.  (A listener that
+   re-allocated the whole value at every escape would break the correspondence case
+   CteStrRun of the check, whose upper bracket is [c_al] + slack.) *)
+Theorem C08_cte_accumulation_linear :
+  forall body s, cte_string body = Some s ->
+    c_al s <= 10 * c_len s + 320 /\
+    c_len s <= 4 * N.of_nat (length body) /\
+    c_work s <= c_al s + c_len s.
+Proof. exact cte_accumulation_linear. Qed.
+Print Assumptions C08_cte_accumulation_linear.
+
+(* ------------------------------------------------------------------ *)
 (* Non-vacuity and the former witnesses                                 *)
 (* ------------------------------------------------------------------ *)
 
@@ -121,3 +145,9 @@ Example C08_accepted_example :
   al (o_st (run cfg no_ext None d)) = 1778 /\ buf (o_st (run cfg no_ext None d)) = 1016 /\
   alloc cfg no_ext None d = 2778 /\ steps cfg no_ext None d = 2900.
 Proof. vm_compute. repeat split; reflexivity. Qed.
+
+(* the hypothesis of C08_cte_accumulation_linear is satisfiable: `abcdefgh\n` 1000 times *)
+Example C08_cte_escape_heavy_example :
+  cte_string (lrep [97; 98; 99; 100; 101; 102; 103; 104; 92; 110] 1000 ++ [34])
+  = Some {| c_len := 9000; c_cap := 15550; c_al := 45982; c_work := 39432 |}.
+Proof. vm_compute. reflexivity. Qed.
